@@ -96,7 +96,7 @@ func c06Check(in c06Input, concurrent bool) (string, []string, *wgResult) {
 	var known []string
 	base := wgEvaluate(wgInput{Model: in.Model, Orders: in.Orders}, wgOpts{RealBuilds: 8})
 	for _, f := range base.Findings {
-		if f.Aspect == "determinism" {
+		if f.Aspect == "determinism" || f.Aspect == "panic" {
 			return f.What, nil, base
 		}
 	}
